@@ -1,7 +1,7 @@
 (* C17 — model of dialect / schema inference and of the typing of rows.  Definitions only.
    crates/glaredb_ext_csv/src/dialect.rs  (DialectOptions::infer_from_sample, dialects())
    crates/glaredb_ext_csv/src/schema.rs   (CsvSchema::infer_from_records, CandidateType)
-   crates/glaredb_ext_csv/src/functions/read_csv.rs (bind: 4096-byte sample, unwrap_or_default)
+   crates/glaredb_ext_csv/src/functions/read_csv.rs (bind: 4096-byte sample, eof = short read, unwrap_or_default)
    crates/glaredb_ext_csv/src/reader.rs   (write_primitive / write_string: column count test, empty = NULL)
    crates/glaredb_core/src/functions/cast/parse.rs (BoolParser; Int64Parser / Float64Parser = Rust FromStr)
    Fields are byte lists; the model assumes they are valid UTF-8 (invalid UTF-8 belongs to C19). *)
@@ -107,23 +107,48 @@ Definition update (c : cand) (f : list N) : cand :=
       end
   end.
 
+(* the second pass of infer_from_records: `if !field.is_empty() && !candidate.is_valid(field) { Utf8 }` *)
+Definition revalidate (c : cand) (f : list N) : cand :=
+  match f with
+  | [] => c
+  | _ => if is_valid c f then c else CUtf8
+  end.
+
 (* `candidates.iter_mut().zip(record.iter_fields())`: the shorter side decides *)
-Fixpoint update_row (cs : list cand) (fs : list (list N)) : list cand :=
+Fixpoint zip_row (g : cand -> list N -> cand) (cs : list cand) (fs : list (list N)) : list cand :=
   match cs, fs with
-  | c :: cs', f :: fs' => update c f :: update_row cs' fs'
+  | c :: cs', f :: fs' => g c f :: zip_row g cs' fs'
   | _, _ => cs
   end.
+Definition update_row := zip_row update.
+Definition revalidate_row := zip_row revalidate.
+
+(* one column seen alone: the values of the rows after the first, in row order *)
+Definition col_type (vs : list (list N)) : cand := fold_left revalidate vs (fold_left update vs CBool).
+(* OLD (before the re-validation pass was added): the chain alone *)
+Definition col_type_old (vs : list (list N)) : cand := fold_left update vs CBool.
+
+Definition is_empty (f : list N) : bool := match f with [] => true | _ => false end.
 
 Record schema := { has_header : bool; col_types : list cand; col_names : list (option (list N)) }.
 (* a name is Some header field, or None = generated "column<idx>" *)
 
-(* CsvSchema::infer_from_records; None = the "no records" error *)
-Definition infer_schema (records : list (list (list N))) : option schema :=
+(* CsvSchema::infer_from_records; None = the "no records" error.  Two passes over the records after the first
+   (widen, then re-validate); the first record is a header iff one of its NON-EMPTY fields fails its column's
+   candidate.  `infer_schema_old` is the code before those two repairs (one pass; empty fields vote too). *)
+Definition infer_schema_old (records : list (list (list N))) : option (bool * list cand) :=
   match records with
   | [] => None
   | first :: rest =>
       let cands := fold_left update_row rest (repeat CBool (length first)) in
-      let hdr := existsb (fun p => negb (is_valid (snd p) (fst p))) (combine first cands) in
+      Some (existsb (fun p => negb (is_valid (snd p) (fst p))) (combine first cands), cands)
+  end.
+Definition infer_schema (records : list (list (list N))) : option schema :=
+  match records with
+  | [] => None
+  | first :: rest =>
+      let cands := fold_left revalidate_row rest (fold_left update_row rest (repeat CBool (length first))) in
+      let hdr := existsb (fun p => negb (is_empty (fst p)) && negb (is_valid (snd p) (fst p))) (combine first cands) in
       Some {| has_header := hdr; col_types := cands;
               col_names := if hdr then map (fun p => Some (fst p)) (combine first cands)
                            else map (fun _ => None) cands |}
@@ -138,9 +163,9 @@ Definition dialects : list dialect :=
 Definition default_dialect : dialect := {| delim := 44; quote := 34 |}%N.
 
 (* one iteration of the loop over dialects(): `best` = (dialect, fields) *)
-Definition try_dialect (sample : list N) (best : option dialect * nat) (d : dialect)
+Definition try_dialect (sample : list N) (eof : bool) (best : option dialect * nat) (d : dialect)
   : option (option dialect * nat) :=
-  match run_dfa d sample with
+  match run_sample d eof sample with
   | None => None                                  (* a slice out of range: panic *)
   | Some recs =>
       match recs with
@@ -154,20 +179,21 @@ Definition try_dialect (sample : list N) (best : option dialect * nat) (d : dial
       end
   end.
 
-Fixpoint infer_loop (sample : list N) (ds : list dialect) (best : option dialect * nat)
+Fixpoint infer_loop (sample : list N) (eof : bool) (ds : list dialect) (best : option dialect * nat)
   : option (option dialect * nat) :=
   match ds with
   | [] => Some best
   | d :: rest =>
-      match try_dialect sample best d with
+      match try_dialect sample eof best d with
       | None => None
-      | Some b => infer_loop sample rest b
+      | Some b => infer_loop sample eof rest b
       end
   end.
 
-(* DialectOptions::infer_from_sample: outer None = panic, inner None = no dialect found *)
-Definition infer_dialect (sample : list N) : option (option dialect) :=
-  option_map fst (infer_loop sample dialects (None, 0)).
+(* DialectOptions::infer_from_sample_with_eof (infer_from_sample = eof false): outer None = panic, inner None = no
+   dialect found *)
+Definition infer_dialect (sample : list N) (eof : bool) : option (option dialect) :=
+  option_map fst (infer_loop sample eof dialects (None, 0)).
 
 (* ------------------------------------------------------------------ bind + scan of one file *)
 (* reader.rs write_primitive / write_string: the column count is tested per record, an empty field is NULL,
@@ -204,13 +230,14 @@ Inductive scan_result :=
 (* rows = None: the scan raises an error *)
 
 (* ReadCsv::bind on the first `sample_len` bytes, then CsvReader over `chunks` (the file cut at the read-buffer
-   size) with batches of `out_cap` rows.  The sample is decoded WITHOUT end-of-input signal (bind), the scan with. *)
-Definition read_csv (sample : list N) (out_cap : nat) (chunks : list (list N)) : scan_result :=
-  match infer_dialect sample with
+   size) with batches of `out_cap` rows.  `eof`: the sample reached the end of the file (fewer bytes than the
+   4096-byte buffer were read): the sample then gets the end-of-input signal like the scan does. *)
+Definition read_csv (sample : list N) (eof : bool) (out_cap : nat) (chunks : list (list N)) : scan_result :=
+  match infer_dialect sample eof with
   | None => ScanPanic
   | Some od =>
       let d := match od with Some d => d | None => default_dialect end in
-      match run_dfa d sample with
+      match run_sample d eof sample with
       | None => ScanPanic
       | Some recs =>
           match infer_schema recs with
